@@ -59,6 +59,21 @@ claim(
     "DESIGN.md §5.3 C21",
 )
 
+claim(
+    "C24",
+    "AsyncRequest is modelled at one action per atomic operation (Model/AsyncReq.lean; the element's construction and "
+    "move-out are atomic events because the harness payload's only member is an atomic). Proved for every run of any "
+    "number of requesters, producers and consumers: the state word is a lock around the object (C24_mutex), "
+    "tryEmplaceUpdate succeeds exactly when the word is needsUpdate (C24_emplace_only_when_requested), getUpdate never "
+    "hands out a moved-from object (C24_take_is_fresh), and over whole histories the values taken are a prefix of the "
+    "values emplaced with at most one outstanding (C24_history: each emplaced value is returned at most once, only "
+    "after an emplace). Traces of the real code under the deterministic scheduler are replayed through the same exec.",
+    "Trusted: Lean kernel; dsched; SC reading; std::optional<Payload> instantiation (C++17). The original "
+    "load/move/store getUpdate is kept as protoOld with the proved double-delivery witness C24_old_double_delivery.",
+    "Lean 4 proof (invariant + history induction) + trace validation under a deterministic scheduler",
+    "DESIGN.md §5.3 C24",
+)
+
 ALL = ["C%02d" % i for i in range(1, 49)]
 for _p in ALL:
     if _p not in CLAIMED:
